@@ -97,15 +97,25 @@ def clamp_receivers(behaviours):
     return behaviours
 
 
+def mc_only(ctx, c, invariants, properties, name="core-mc-only", timeout=1500):
+    """Exhaustive TLC run of a configuration too large to replay (no dump)."""
+    tc = consts_for_tlc(c)
+    mc, cfg = gen_mc("MCB", "LoggCore", tc,
+                     ["INIT Init", "NEXT Next", "INVARIANTS " + " ".join(invariants)] +
+                     (["PROPERTIES " + " ".join(properties)] if properties else []),
+                     plain=dict(MaxLoggers=c["max_loggers"], InitLevel=c["init_level"], MaxList=c.get("max_list", 2)))
+    return ctx.model_check("MCB", "MCB.cfg", files={"MCB.tla": mc, "MCB.cfg": cfg}, name=name, timeout=timeout)
+
+
 def run_core(ctx, c, invariants, properties, obs, rand_count, rand_depth, rand_loggers, testing=True,
-             dump=True, key_fn=None, max_len=60):
+             dump=True, key_fn=None, max_len=60, rand_cfg=None):
     tc = consts_for_tlc(c)
     # ---- 1. exhaustive model check with graph dump
     mc, cfg = gen_mc("MC", "LoggCore", tc,
                      ["INIT Init", "NEXT Next", "ALIAS DumpAlias",
                       "INVARIANTS " + " ".join(invariants)] +
                      (["PROPERTIES " + " ".join(properties)] if properties else []),
-                     plain=dict(MaxLoggers=c["max_loggers"], InitLevel=c["init_level"]))
+                     plain=dict(MaxLoggers=c["max_loggers"], InitLevel=c["init_level"], MaxList=c.get("max_list", 2)))
     dot = os.path.join(ctx.scratch, "graph")
     r = ctx.model_check("MC", "MC.cfg", files={"MC.tla": mc, "MC.cfg": cfg},
                         extra=["-dump", "dot,actionlabels", dot] if dump else [], name="core-mc")
@@ -123,10 +133,16 @@ def run_core(ctx, c, invariants, properties, obs, rand_count, rand_depth, rand_l
     n_cover = len(behaviours)
     # ---- 2. seeded random deeper histories
     rng = random.Random(ctx.seed * 7919 + 17)
-    behaviours += random_behaviours(c, rng, rand_count, rand_depth, rand_loggers)
-    script = dict(init_level=c["init_level"], obs=obs, probe_sevs=c.get("probe_sevs", [4]),
-                  gate_sevs=c.get("gate_sevs", []), names=sorted(c["names"]), bool_lists=c["bool_lists"],
-                  layouts=c["layouts"], opt_lists=c["opt_lists"], customs=c.get("customs", []),
+    rc = rand_cfg or c
+    if rand_cfg:
+        # the random vocabulary extends the exhaustive one: same leading tables, so that the
+        # indexes used by the edge-cover behaviours keep their meaning
+        for key in ("bool_lists", "layouts", "opt_lists"):
+            assert rc[key][:len(c[key])] == c[key], key
+    behaviours += random_behaviours(rc, rng, rand_count, rand_depth, rand_loggers)
+    script = dict(init_level=c["init_level"], obs=obs, probe_sevs=rc.get("probe_sevs", [4]),
+                  gate_sevs=rc.get("gate_sevs", []), names=sorted(rc["names"]), bool_lists=rc["bool_lists"],
+                  layouts=rc["layouts"], opt_lists=rc["opt_lists"], customs=rc.get("customs", []),
                   behaviours=behaviours)
     sp = os.path.join(ctx.scratch, "script.json")
     with open(sp, "w") as fh:
@@ -136,7 +152,7 @@ def run_core(ctx, c, invariants, properties, obs, rand_count, rand_depth, rand_l
     ctx.run_worker(["core", sp, tp], testing=testing, timeout=1800)
     rows = read_ndjson(tp)
     # ---- 4. validate with TLC
-    bad = validate_core_trace(ctx, c, tp, rand_loggers)
+    bad = validate_core_trace(ctx, rc, tp, rand_loggers)
     # map bad lines to behaviours
     starts = [i for i, r_ in enumerate(rows) if r_["op"] == "Reset"]
     nontrivial = set()
@@ -225,7 +241,7 @@ def validate_core_trace(ctx, c, trace_path, max_loggers, name="core-trace"):
     tc["TraceFile"] = "trace.ndjson"
     mct, cfg = gen_mc("MCT", "LoggCoreTrace", tc,
                       ["SPECIFICATION TSpec", "INVARIANTS Done TOneFormat TTreeOK", "CHECK_DEADLOCK FALSE"],
-                      plain=dict(MaxLoggers=max(max_loggers, c["max_loggers"]) + 64, InitLevel=c["init_level"]))
+                      plain=dict(MaxLoggers=max(max_loggers, c["max_loggers"]) + 64, InitLevel=c["init_level"], MaxList=1000))
     r = ctx.tlc("MCT", "MCT.cfg", files={"MCT.tla": mct, "MCT.cfg": cfg}, copy={trace_path: "trace.ndjson"},
                 workers=1, name=name, timeout=3000, heap="12g", allow_fail=True)
     if r.invariant_violated:
